@@ -28,6 +28,9 @@ def witness_dirs(tier):
     return out
 
 
+FEATURE_VARIANT_WITNESSES = {"w-reply", "w-overrides", "w-shapes", "w-generics", "w-passthrough", "w-legacy"}
+
+
 def get_facts(tier="quick", variant="main"):
     """variant: 'main' (all features) — other variants (feature matrix) are built by their own callers."""
     os.makedirs(os.path.join(util.CACHE, "facts"), exist_ok=True)
@@ -63,7 +66,17 @@ def build_facts(tier, variant):
     if variant.startswith("perm:"):
         spec = variant[5:]
         permute = ("swap", int(spec[4:])) if spec.startswith("swap") else spec
-    crates = corpus.assemble(util.REPO, ws, include_examples=True, witness_dirs=witness_dirs(tier), permute=permute)
+    feats = None
+    kw = {}
+    if variant.startswith("feat:"):
+        # feature matrix: the generator's `mt` / `cosmwasm_1_2` cfg branches. The repository's own tests assume `mt`; the corpus of
+        # these variants is the example crates (library builds) and the witness libraries that do not name sylvia::multitest.
+        feats = {"nomt": ["stargate", "iterator", "cosmwasm_1_1"], "mt-nocw12": ["mt", "stargate", "iterator", "cosmwasm_1_1"]}[variant[5:]]
+        kw = dict(include_repo_tests=False, include_doctests=False, include_ui=False)
+    wd = witness_dirs(tier)
+    if variant.startswith("feat:"):
+        wd = [d for d in witness_dirs("quick") if os.path.basename(d) in FEATURE_VARIANT_WITNESSES]
+    crates = corpus.assemble(util.REPO, ws, include_examples=True, witness_dirs=wd, permute=permute, sylvia_features=feats, **kw)
     names = sorted(set(c.name for c in crates if getattr(c, "indexed", True) and not getattr(c, "expect_fail", False)))
     all_names = sorted(set(c.name for c in crates))
     # force rebuild of the crates under analysis (cargo's freshness cache would skip the wrapper)
